@@ -40,6 +40,11 @@ def run(ctx):
     ctx.floor('R03.5', T.rule_conservation(ctx, 'R03.5'), 6)
     ctx.rule('R03.6', 'update_history once per detection; track_length += 1')
     ctx.floor('R03.6', T.rule_length_step(ctx, 'R03.6'), 4)
+    ctx.rule('R03.12', 'the epoch advances once per predict call and scene: a batch keeps one entry per scene id (entries '
+                       'selected by id), and an epoch once counted is never forgotten (no removal from the epoch map)')
+    n = T.rule_batch_request(ctx, 'R03.12')
+    n += T.rule_epochs_never_forgotten(ctx, 'R03.12')
+    ctx.floor('R03.12', n, 3)
     ctx.rule('R03.7', 'only Ok(Wasted) ids are fetched')
     ctx.floor('R03.7', T.rule_only_expired_migrate(ctx, 'R03.7'), 2)
     import metriclib
